@@ -34,7 +34,7 @@ use vibesql_types::{DataType, SqlValue};
 
 type Key = Vec<SqlValue>;
 const DB_FILE: &str = "t.db";
-const HANG_SECS: u64 = 25;
+const HANG_SECS: u64 = 60;
 const MEM_LIMIT_KB: u64 = 4_000_000;
 
 // ------------------------------------------------------------------ concretisation
@@ -306,6 +306,11 @@ fn echo(a: &Value) -> Value {
     a
 }
 
+fn ranks_of(list: &Value) -> String {
+    let r: Vec<u64> = list.as_array().map(|x| x.iter().map(|e| e[0].as_u64().unwrap_or(0)).collect()).unwrap_or_default();
+    if r.len() > 40 { format!("{:?} .. {:?} ({} entries)", &r[..6], &r[r.len() - 3..], r.len()) } else { format!("{:?}", r) }
+}
+
 fn render(a: &Value, ukeys: &[Key]) -> String {
     let k = |f: &str| -> String {
         let r = a[f].as_u64().unwrap_or(0) as usize;
@@ -314,15 +319,14 @@ fn render(a: &Value, ukeys: &[Key]) -> String {
     match a["a"].as_str().unwrap_or("") {
         "new" => format!("new(schema {}, universe of {} keys)", a["schema"].as_str().unwrap_or(""), a["nu"]),
         "bulk" => format!(
-            "bulk_load(schema {}, universe {}, {} entries: ranks {:?})",
+            "bulk_load(schema {}, universe {}, {} entries: ranks {})",
             a["schema"].as_str().unwrap_or(""),
             a["nu"],
             a["ents"].as_array().map(|x| x.len()).unwrap_or(0),
-            a["ents"].as_array().map(|x| x.iter().map(|e| e[0].as_u64().unwrap_or(0)).collect::<Vec<_>>()).unwrap_or_default()
+            ranks_of(&a["ents"])
         ),
         "ins" => format!("insert({}, rid {})", k("k"), a["r"]),
-        "seq" => format!("insert x{}: ranks {:?}", a["ops"].as_array().map(|x| x.len()).unwrap_or(0),
-            a["ops"].as_array().map(|x| x.iter().map(|e| e[0].as_u64().unwrap_or(0)).collect::<Vec<_>>()).unwrap_or_default()),
+        "seq" => format!("insert x{}: ranks {}", a["ops"].as_array().map(|x| x.len()).unwrap_or(0), ranks_of(&a["ops"])),
         "del" => format!("delete({})", k("k")),
         "dels" => format!("delete_specific({}, rid {})", k("k"), a["r"]),
         "reload" => "BTreeIndex::load(same PageManager)".to_string(),
@@ -331,10 +335,20 @@ fn render(a: &Value, ukeys: &[Key]) -> String {
     }
 }
 
+// ------------------------------------------------------------------ scenario input, read lazily (inputs can be large:
+// the worker must produce its first event quickly, the supervisor's watchdog measures progress of the output)
+fn scenario_lines(path: &str) -> impl Iterator<Item = String> {
+    let f = std::fs::File::open(path).unwrap_or_else(|e| panic!("open {}: {}", path, e));
+    std::io::BufReader::new(f).lines().map_while(Result::ok).filter(|l| !l.trim().is_empty())
+}
+
+fn parse_scenario(line: &str) -> Value {
+    serde_json::from_str(line).unwrap_or_else(|e| panic!("bad scenario line: {}", e))
+}
+
 // ------------------------------------------------------------------ worker: replays scenarios start.. in this process
 fn worker(inp: &str, out: &str, cfg: &str, start: usize) {
     vq::quiet_panics();
-    let scen = vq::read_ndjson(inp);
     let tmp_root = PathBuf::from(format!("{}.tmpd", out));
     std::fs::create_dir_all(&tmp_root).expect("tmp root");
     let mut w = BufWriter::new(std::fs::File::create(out).expect("create out"));
@@ -342,7 +356,8 @@ fn worker(inp: &str, out: &str, cfg: &str, start: usize) {
         vq::write_line(&mut w, ev);
         w.flush().unwrap();
     };
-    for sc in scen.iter().skip(start) {
+    for line in scenario_lines(inp).skip(start) {
+        let sc = parse_scenario(&line);
         let id = sc["id"].clone();
         emit(&json!({"a": {"a": "reset"}, "sc": id, "i": 0, "out": "ok", "cfg": cfg, "sql": "reset"}));
         let steps = sc["steps"].as_array().cloned().unwrap_or_default();
@@ -493,12 +508,12 @@ fn main() {
         worker(&inp, &out, &cfg, start);
         return;
     }
-    let scen = vq::read_ndjson(&inp);
+    let nscen = scenario_lines(&inp).count();
     let exe = std::env::current_exe().expect("exe");
     let part = format!("{}.part", out);
     let mut w = BufWriter::new(std::fs::File::create(&out).expect("create out"));
     let (mut next, mut nev, mut incidents) = (0usize, 0usize, 0usize);
-    while next < scen.len() {
+    while next < nscen {
         let _ = std::fs::remove_file(&part);
         let script = format!("ulimit -v {} 2>/dev/null; exec \"$0\" \"$@\"", MEM_LIMIT_KB);
         let mut child = std::process::Command::new("sh")
@@ -537,8 +552,8 @@ fn main() {
         let resets = lines.iter().filter(|l| l.contains("\"a\":{\"a\":\"reset\"}")).count();
         let cur = if resets == 0 { next } else { next + resets - 1 };
         let last_i = lines.last().and_then(|l| serde_json::from_str::<Value>(l).ok()).map(|e| if resets == 0 { 0 } else { e["i"].as_u64().unwrap_or(0) as usize }).unwrap_or(0);
-        if cur < scen.len() {
-            let sc = &scen[cur];
+        if cur < nscen {
+            let sc = parse_scenario(&scenario_lines(&inp).nth(cur).expect("scenario line"));
             if resets == 0 {
                 vq::write_line(&mut w, &json!({"a": {"a": "reset"}, "sc": sc["id"], "i": 0, "out": "ok", "cfg": cfg, "sql": "reset"}));
             }
@@ -556,5 +571,5 @@ fn main() {
     w.flush().unwrap();
     let _ = std::fs::remove_file(&part);
     let _ = std::fs::remove_dir_all(format!("{}.tmpd", part));
-    eprintln!("vq_btree: {} scenarios, {} events, {} worker incidents", scen.len(), nev, incidents);
+    eprintln!("vq_btree: {} scenarios, {} events, {} worker incidents", nscen, nev, incidents);
 }
